@@ -44,6 +44,21 @@ Theorem C28_down_interleaved : forall evs1 evs2 k se n,
 Proof. exact down_interleaved. Qed.
 Print Assumptions C28_down_interleaved.
 
+(* all interleavings, second half: k takes the lock while n has no status;
+   ANY events follow (k's session not ended); once k has finished its own
+   steps, a handler for n has run and covered every workload recorded on n at
+   that moment -- or n's status came back in between *)
+Theorem C28_activation_interleaved : forall evs1 evs2 k n,
+  let s0 := run init evs1 in
+  phase s0 k = Waiting -> holder s0 = None -> memn n (nodes s0) = true ->
+  Forall (fun e => ~ ends k e) evs2 ->
+  let s1 := step s0 (ERegister k) in
+  let s2 := run s1 evs2 in
+  let s3 := settle (settle_bound s2 k) k s2 in
+  handledP s0 s3 k n \/ revived evs2 s1 n.
+Proof. exact activation_interleaved. Qed.
+Print Assumptions C28_activation_interleaved.
+
 (* in any state: whatever the active session owes for n (queued DELETE, pending
    handler, node its init pass has yet to examine and that has no status) is
    discharged by its own steps *)
